@@ -87,7 +87,7 @@ package bridgesync
 //@   loop 0 invariant 0 <= rangeindex + 1 && rangeindex + 1 <= len(block.Events)
 //@   loop 0 invariant rhtOK(rhtHas(p.exitTree.Tree), rhtL(p.exitTree.Tree), rhtR(p.exitTree.Tree))
 //@   loop 0 invariant stmtFail == old(stmtFail) && (leafCalls == old(leafCalls) || lastLeafErr == nil)
-//@   loop 0 invariant shouldRollback && tx != nil && lastTx == tx && tx != old(lastTx) && txState(tx) == 0
+//@   loop 0 invariant tx != nil && lastTx == tx && tx != old(lastTx) && txState(tx) == 0
 
 //@ func (p *processor) Reorg
 //@   props C04 C14
